@@ -4,9 +4,12 @@ import (
 	"context"
 	"encoding/json"
 	"fmt"
+	"os"
+	"strings"
 	"time"
 
 	"github.com/rqlite/rqlite/v10/command/proto"
+	"github.com/rqlite/rqlite/v10/verifx"
 	"verifsim/core"
 	"verifsim/node"
 	"verifsim/sched"
@@ -34,7 +37,7 @@ const (
 
 type c31Scenario struct {
 	Seed          uint64   `json:"seed"`
-	Holder        string   `json:"holder"`      // backup | snapshot | check-clean-snapshot
+	Holder        string   `json:"holder"`      // backup | snapshot | check-clean-snapshot | startup-check | startup-check-legacy
 	HoldMs        int      `json:"hold_ms"`     // how long the gate is held
 	CloseAtMs     int      `json:"close_at_ms"` // Close is called this long after the gate was taken (negative: before)
 	NoSnapOnClose bool     `json:"no_snap_on_close"`
@@ -44,7 +47,7 @@ type c31Scenario struct {
 
 var c31Remaining = []int{0, 1, 9, 10, 11, 100, 999, 1000, 5000, 8990, 9000, 9500, 9990, 10000, 10010, 10500, 11000, 11010, 12000, 20000}
 var c31Offsets = []int{0, 7, 500, 3000}
-var c31Holders = []string{"backup", "snapshot", "check-clean-snapshot"}
+var c31Holders = []string{"backup", "snapshot", "check-clean-snapshot", "startup-check"}
 
 func c31Enumerate(tier string) []any {
 	var out []any
@@ -61,8 +64,14 @@ func c31Enumerate(tier string) []any {
 			}
 		}
 	}
+	// start-up check on a legacy marker (no CRC32): nothing to compute, the gate must be free at once
+	for _, off := range []int{0, 1, 7, 500, 3000, 9000} {
+		i++
+		out = append(out, &c31Scenario{Seed: core.Mix(31, i), Holder: "startup-check-legacy", CloseAtMs: off,
+			NoSnapOnClose: i%2 == 0, TickProb: 0.1, Ops: []string{"a", "b"}})
+	}
 	// Close before the holder arrives
-	for _, h := range c31Holders {
+	for _, h := range c31Holders[:3] {
 		i++
 		out = append(out, &c31Scenario{Seed: core.Mix(31, i), Holder: h, HoldMs: 2000, CloseAtMs: -50, TickProb: 0.1, Ops: []string{"a"}})
 	}
@@ -71,7 +80,7 @@ func c31Enumerate(tier string) []any {
 
 func c31Gen(r *core.Rand, tier string) any {
 	sc := &c31Scenario{Seed: r.Uint64()}
-	sc.Holder = c31Holders[r.Intn(3)]
+	sc.Holder = append(c31Holders, "startup-check-legacy")[r.Intn(5)]
 	rem := 0
 	switch r.Intn(4) {
 	case 0:
@@ -144,21 +153,72 @@ func c31Run(c *core.Ctx, raw json.RawMessage) {
 	// a snapshot first, so that the backup below does not need to take one itself
 	sm.Do("snapshot", 30*time.Second, func() { n.Store.Snapshot(0) })
 
-	s := sched.New(c, c.Rng.Fork(31))
-	s.TickProb = sc.TickProb
-	s.Quanta = []time.Duration{time.Millisecond, 10 * time.Millisecond, 100 * time.Millisecond, time.Second}
-	s.MaxSteps = 3000
 	hold := time.Duration(sc.HoldMs) * time.Millisecond
-	closeAt := time.Duration(sc.CloseAtMs) * time.Millisecond
-	gate := n.Store.VerifSnapshotGate()
-
 	var tHeld, tReleased, tClose, tCloseRet time.Time
-	var closeErr error
-	var holderErr error
 	holderGot := false
 	// events at the same fake instant are ordered by this counter (tasks run one at a time)
 	evSeq, heldSeq, relSeq, closeSeq := 0, 0, 0, 0
 	ev := func() int { evSeq++; return evSeq }
+
+	// The start-up integrity check as holder: the node is shut down and started
+	// again on its directory; with the clean-snapshot marker in place Open takes
+	// the fast path, takes the gate as "check-clean-snapshot" and verifies the
+	// database file's CRC32 on a goroutine of its own. The hook point before the
+	// CRC computation stretches that computation to hold_ms of fake time. With a
+	// legacy marker (no CRC32 recorded) there is nothing to compute.
+	startup := strings.HasPrefix(sc.Holder, "startup-check")
+	if startup {
+		marker := n.Store.CleanSnapshotPathVerif()
+		sm.Do("stop", 60*time.Second, func() { n.Stop() })
+		b, err := os.ReadFile(marker)
+		if err != nil {
+			c.Probe("startup_no_clean_snapshot_marker")
+			c.Res.Trivial = true
+			return
+		}
+		if sc.Holder == "startup-check-legacy" {
+			var m map[string]any
+			if err := json.Unmarshal(b, &m); err != nil {
+				panic(err)
+			}
+			delete(m, "crc32")
+			nb, _ := json.MarshalIndent(m, "", "  ")
+			if err := os.WriteFile(marker, nb, 0o644); err != nil {
+				panic(err)
+			}
+		}
+		verifx.InstallHooks(func(point string) error {
+			if point == "store.open.clean-check.before-crc" {
+				holderGot = true
+				tHeld, heldSeq = time.Now(), ev()
+				time.Sleep(hold)
+				tReleased, relSeq = time.Now(), ev()
+			}
+			return nil
+		}, nil, nil, nil, nil)
+		defer verifx.ResetHooks()
+		if err := sm.Restart(1); err != nil {
+			c.Violate("restart-failed", "node did not start again on its own directory: %v", err)
+			return
+		}
+		if _, err := os.Stat(marker); err != nil {
+			// Open did not take the fast path (it removes the marker when it restores from the snapshot store)
+			c.Probe("startup_fast_path_not_taken")
+			c.Res.Trivial = true
+			return
+		}
+		c.Probe("startup_fast_path_" + map[bool]string{true: "with_crc", false: "legacy_marker"}[sc.Holder == "startup-check"])
+	}
+
+	s := sched.New(c, c.Rng.Fork(31))
+	s.TickProb = sc.TickProb
+	s.Quanta = []time.Duration{time.Millisecond, 10 * time.Millisecond, 100 * time.Millisecond, time.Second}
+	s.MaxSteps = 3000
+	closeAt := time.Duration(sc.CloseAtMs) * time.Millisecond
+	gate := n.Store.VerifSnapshotGate()
+
+	var closeErr error
+	var holderErr error
 	lead := time.Duration(0)
 	if closeAt < 0 {
 		lead = -closeAt
@@ -167,6 +227,9 @@ func c31Run(c *core.Ctx, raw json.RawMessage) {
 
 	holder := s.Go("holder", func(t *sched.Task) {
 		t.Yield("h.start")
+		if startup {
+			return // the holder is rqlite's own goroutine, started by Open
+		}
 		if lead > 0 {
 			time.Sleep(lead)
 		}
@@ -210,6 +273,10 @@ func c31Run(c *core.Ctx, raw json.RawMessage) {
 		s.Logf("  close returned err=%v after %s", closeErr != nil, tCloseRet.Sub(tClose))
 	})
 	s.RunUntil(func() bool { return holder.Done() && closer.Done() })
+	if startup && holderGot && relSeq == 0 {
+		// Close gave up; let the stretched integrity check finish so that its end is known
+		s.RunUntil(func() bool { return relSeq != 0 })
+	}
 	s.Close()
 	if s.Capped {
 		c.Res.Verdict = core.Capped
